@@ -44,7 +44,6 @@ type gRun struct {
 	Case      *gCase
 	Routes    []gRoute
 	Frames    []wire.Pkt // replies to the pipelined requests, in the order they left the server
-	SentAt    []int      // number of gates opened when reply i was seen
 	Extra     []wire.Pkt // anything the server wrote after the last expected reply (before the clean-up phase)
 	Raw       []byte
 	Calls     []gCall
@@ -211,7 +210,6 @@ func gExec(cs *gCase) *gRun {
 		stream = append(stream, fr...)
 	}
 	n := len(p.Ops)
-	gatesOpened := 0
 	recvUpTo := func(want int, deadline time.Duration) error {
 		for len(run.Frames) < want {
 			f, err := srv.Recv(deadline)
@@ -220,7 +218,6 @@ func gExec(cs *gCase) *gRun {
 				return fmt.Errorf("reply %d of %d did not arrive: %v", len(run.Frames)+1, n, err)
 			}
 			run.Frames = append(run.Frames, f)
-			run.SentAt = append(run.SentAt, gatesOpened)
 		}
 		return nil
 	}
@@ -302,7 +299,6 @@ func gExec(cs *gCase) *gRun {
 			if err := hub.release(reqs[i].Gate, gDeadlineNow()); err != nil {
 				return fault("schedule/held-call-did-not-return/"+p.Server, err.Error(), step)
 			}
-			gatesOpened++
 			sim.finish(i)
 		}
 	} else {
@@ -330,7 +326,11 @@ func gExec(cs *gCase) *gRun {
 	var on bool
 	for t0 := time.Now(); ; {
 		run.UsedQ, run.AvailQ, on = gAllocCounts(srv)
-		if run.UsedQ <= 1 || time.Since(t0) > 2*time.Second {
+		if run.UsedQ <= 1 {
+			break
+		}
+		if limit := 2 * time.Second; time.Since(t0) > limit || (gQuiesceHits.Load() >= 4 && time.Since(t0) > limit/20) {
+			gQuiesceHits.Add(1)
 			break
 		}
 		time.Sleep(200 * time.Microsecond)
